@@ -41,7 +41,7 @@ class C01(Prop):
                 'DK.BridgeVec.Poly2DOffset_vector',
                 'DK.BridgeVec.Poly2DOffset_call']      # T1v: vector method bodies (vk/translate_vec.py, DK/Lemmas/BridgeVec.lean)
   bridge = bridge + bridge_vec
-  rule = ('random leaf of every shipped class x horizon n (1..8 quick, ..31 thorough) x bounds with zero-width slots x '
+  rule = ('random leaf of every shipped class x horizon n (1..8 quick plus 5 % from {12,16,24,25,31,48}; ..60 thorough; 25 % of prices, interior flows and cost parameters are non-dyadic decimals) x bounds with zero-width slots x '
           'scalar/vector parameters x in-bounds flow (interior / on bounds / mixed) x scalar/vector price; non-trivial: n >= 2, '
           'a flow strictly inside a non-zero-width slot and a non-zero curve parameter; plus (oracle only) ADevice over the function classes outside the '
           'Lean embedding: X2D of mixed scalar functions, Poly1D, InnerSumFunction variants, real-exponent ABCCost, numdifftools-based classes, '
